@@ -508,6 +508,19 @@ func runC13(k *kernel.K) {
 		op.item = admin.Add(ar)
 		ops = append(ops, op)
 	}
+	if w.Chance(1, 5) {
+		// a client that wants to talk to the API over TLS first asks for a tunnel to the API host:
+		// that CONNECT is addressed to the proxy's own API too
+		tun := NewClient(k, aw.l, "api-connect", "10.1.0.5")
+		tun.Hold = true
+		tun.Add(&ReqSpec{ID: 995, Method: "CONNECT", Host: "martian.proxy:443", Path: "martian.proxy:443"})
+		k.AddInvariant(func() {
+			if tun.Hold && len(admin.P.Final()) >= 1 {
+				tun.Hold = false
+			}
+		})
+		k.Probe("connect_to_api_host")
+	}
 	ops = append(ops, &c13Op{kind: "query", idx: len(ops) + 1, item: admin.Add(apiReq(990, "GET", "/verify", ""))})
 	var opNames []string
 	for _, op := range ops {
@@ -666,7 +679,11 @@ func runC13(k *kernel.K) {
 			}
 			if ex < 0 || msgs[ex] == nil {
 				if strings.Contains(msg, "martian.proxy") || strings.Contains(msg, "10.0.0.9") {
-					k.Fail("C13.api_not_counted", map[string]string{"verifier": leaf.kind}, "query %d: a request addressed to the proxy's own API was counted by the %s verifier: %q", qi, leaf.kind, msg)
+					params := map[string]string{"verifier": leaf.kind}
+					if strings.Contains(msg, "martian.proxy:443") {
+						params["request"] = "connect_to_api_host"
+					}
+					k.Fail("C13.api_not_counted", params, "query %d: a request addressed to the proxy's own API was counted by the %s verifier: %q", qi, leaf.kind, msg)
 				} else {
 					k.Fail("C13.query_exact", map[string]string{"verifier": leaf.kind, "branch": leaf.branch, "scope": "n/a"}, "query %d returned an error for an exchange nobody sent: %q", qi, msg)
 				}
